@@ -180,7 +180,7 @@ def run(ctx):
 CLAIM = {
     "text": "Decides that every access to the map of open runs is either keyed by the executing message's run key or a deliberate broadcast over "
             "all runs (frozen table with reasons), that open_run rejects a duplicate key before any state change and registers a fresh bundler "
-            "under that key, that close_run removes only its own key, that set_run_key_wrapper only fills in missing keys, and that each "
+            "under that key, that close_run removes only its own key and - like every implicit checkpoint - resets the checkpoint of the whole engine (every run that stays open), that set_run_key_wrapper only fills in missing keys, and that each "
             "bundler's documents come from its own compose bundle. Run-time interleavings are not decided.",
     "technique": "sibling agreement (keyed vs broadcast) with reaching definitions of the key; guard-before-effects; provenance",
 }
